@@ -117,6 +117,10 @@ pub struct Model<'a> {
     pub mistakes: Vec<&'static str>,
     /// the run touched a conversion the model does not predict: judge totality only
     pub unpredictable: bool,
+    /// ranges of repeated occurrences of single-valued fields: the property does not say whether the
+    /// repeat's value is still converted, so a conversion (and its leaves) inside them is tolerated
+    pub may_convert: Vec<Range>,
+    pub may_convert_ids: BTreeSet<u32>,
     depth: usize,
 }
 
@@ -158,6 +162,8 @@ impl<'a> Model<'a> {
             fired: Vec::new(),
             mistakes: Vec::new(),
             unpredictable: false,
+            may_convert: Vec::new(),
+            may_convert_ids: BTreeSet::new(),
             depth: 0,
         }
     }
@@ -644,6 +650,18 @@ impl<'a> Model<'a> {
                             } else {
                                 self.mistake("repeated_name");
                                 st.leaves.push(leaf("duplicate", format!("Duplicate field `{}`", fd.name), SpanExp::Within(it.r_item)));
+                                self.may_convert.push(it.r_item);
+                                fn ids(it: &Item, out: &mut BTreeSet<u32>) {
+                                    out.insert(it.id);
+                                    if let Form::List(inner) = &it.form {
+                                        for n in inner {
+                                            if let Nested::Item(x) = n {
+                                                ids(x, out);
+                                            }
+                                        }
+                                    }
+                                }
+                                ids(it, &mut self.may_convert_ids);
                             }
                         }
                         None => {
